@@ -229,8 +229,20 @@ ReadRuleLine(line) ==
                               ELSE LET as == ReadActs(ab) IN
                                 IF ~as.ok THEN as ELSE Ok([targets |-> ts.v, op |-> op.v, acts |-> as.v])
 
+\* a text holding a sequence of rules (a chain starter and its links, or unrelated rules)
+RECURSIVE ReadLines(_)
+ReadLines(ls) == IF ls = << >> THEN Ok(<< >>)
+                 ELSE LET r == ReadRuleLine(ls[1]) IN
+                      IF ~r.ok THEN r
+                      ELSE LET more == ReadLines(Tail(ls)) IN IF ~more.ok THEN more ELSE Ok(<<r.v>> \o more.v)
+ReadAll(toks) == ReadLines(LogicalLines(toks))
+
 \* a text holding exactly one rule
 Read(toks) == LET ls == LogicalLines(toks) IN IF Len(ls) # 1 THEN Rej("not-one-logical-line") ELSE ReadRuleLine(ls[1])
+
+\* several rules one after the other, each on its own (possibly continued, indented, commented) lines
+RECURSIVE RenderAll(_, _)
+RenderAll(ds, st) == IF ds = << >> THEN << >> ELSE Render(ds[1], st) \o (IF Len(ds) > 1 THEN <<P(NL, "nl")>> \o (IF st.comment THEN <<P(NL, "nl")>> ELSE << >>) ELSE << >>) \o RenderAll(Tail(ds), st)
 
 \* what a description reads back as
 NormalAct(a) == [name |-> a.name, hasVal |-> a.hasVal, val |-> a.val]
